@@ -227,6 +227,7 @@ pub fn check_column(expected: &[Vec<Val>], kind: Kind, obs: &Obs, rng: &mut Rng,
         let mut d = ctx.clone();
         d["lookup"] = json!({"lo": lo.to_string(), "hi": hi.to_string(), "docs": [d0, d1], "col_min": obs.min.to_string(), "type": obs.ty, "card": format!("{:?}", obs.card)});
         out.count("column_range_lookups", 1);
+        if lo <= hi && hi < obs.min { out.count("column_range_lookups_below_min", 1); }
         match (obs.lookup)(lo, hi, d0, d1) {
             Err(p) => { d["what"] = json!("get_docids_for_value_range panicked"); d["panic"] = json!(p); out.spec_checked(false, d); }
             Ok(got) => {
@@ -234,9 +235,8 @@ pub fn check_column(expected: &[Vec<Val>], kind: Kind, obs: &Obs, rng: &mut Rng,
                 else {
                     d["what"] = json!("get_docids_for_value_range != documents holding a value in the range");
                     d["got_len"] = json!(got.len()); d["want_len"] = json!(want.len()); d["got_head"] = json!(&got[..got.len().min(8)]); d["want_head"] = json!(&want[..want.len().min(8)]);
-                    let in_f81 = lo <= hi && hi < obs.min && got.iter().all(|&g| exp_rows[g as usize].iter().any(|&v| v == obs.min));
-                    if in_f81 { d["known"] = json!("F81"); out.count("range_below_min_false_positive", 1); out.n_spec += 1; out.spec_fail.push(d); }
-                    else { out.spec_checked(false, d); }
+                    d["range_below_column_min"] = json!(lo <= hi && hi < obs.min);
+                    out.spec_checked(false, d);     // an ordinary violation (the former class F81 is fixed in /repo)
                 }
             }
         }
@@ -306,6 +306,12 @@ pub fn check_table(bytes: Vec<u8>, t: &Table, rng: &mut Rng, out: &mut CaseOut, 
 }
 
 pub fn section_columnar(rng: &mut Rng, out: &mut CaseOut, thorough: bool) {
+    // ---- corpus: the F81 witness column (fixed in /repo) through the Column API (check_column always looks up a range below the minimum first)
+    {
+        let t = Table { num_docs: 3, cols: vec![ColSpec { name: "corpus_u64".into(), kind: Kind::U64, rows: vec![vec![Val::U(10)], vec![Val::U(20)], vec![Val::U(30)]] },
+                                               ColSpec { name: "corpus_i64_multi".into(), kind: Kind::I64, rows: vec![vec![Val::I(-5), Val::I(7)], vec![], vec![Val::I(-5)]] }] };
+        if let Ok(bytes) = guarded(|| write_table(&t)) { check_table(bytes, &t, rng, out, json!({"what": "corpus: F81 regression column"}), true); }
+    }
     // ---- single columnar files
     let n_tables = if thorough { 220 } else { 60 };
     for ti in 0..n_tables {
